@@ -399,18 +399,29 @@ func (u *UpstreamPlain) packReq(network Network, buf []byte, req *dns.Msg) (n in
 		// #nosec G115 -- reqLen has already been checked against
 		// dns.MaxMsgSize, which equals math.MaxUint16.
 		binary.BigEndian.PutUint16(buf, uint16(reqLen))
-		_, err = req.PackBuffer(buf[2:])
 
-		return reqLen + 2, err
+		// PackBuffer allocates a new slice if the buffer is not at least one
+		// byte longer than the message, so make sure that the data is in buf.
+		var packed []byte
+		packed, err = req.PackBuffer(buf[2:])
+		if err != nil {
+			return 0, err
+		}
+
+		return copy(buf[2:], packed) + 2, nil
 	}
 
 	if reqLen > len(buf) {
 		return 0, dns.ErrBuf
 	}
 
-	_, err = req.PackBuffer(buf)
+	// See the comment above.
+	packed, err := req.PackBuffer(buf)
+	if err != nil {
+		return 0, err
+	}
 
-	return reqLen, err
+	return copy(buf, packed), nil
 }
 
 // getBuffer gets a bytes buffer that used for packing the request and then for
